@@ -290,6 +290,26 @@ func checkMain(args []string) int {
 	for _, r := range out.results {
 		byName[r.Name] = r
 	}
+	if !*writeBase {
+		// claimed obligations the first (parallel) pass left undecided get a second pass with
+		// less contention and a longer limit before anything is reported: see secondChance
+		var again []*SolveResult
+		for _, name := range base.Obligations {
+			if r := byName[name]; r != nil && knownFor(name) == nil && (only == nil || only[name]) {
+				again = append(again, r)
+			}
+		}
+		retryS := 4 * timeoutS
+		if retryS < 60 {
+			retryS = 60
+		}
+		secondChance(again, retryS)
+		for _, r := range again {
+			if r.Retried {
+				fmt.Fprintf(os.Stderr, "note: %s was undecided within %d s in the parallel pass; second pass (limit %d s): %s by %s in %.1f s\n", r.Name, timeoutS, retryS, r.Result, r.Solver, r.TimeS)
+			}
+		}
+	}
 	violations := 0
 	renumbered := 0
 	var vlines []string
@@ -484,6 +504,9 @@ func writeEvidence(id, tier string, seed int, out *runOutput, cfg *PropConfig, w
 		}
 		perSolver[r.Solver] += r.TimeS
 		obl = append(obl, map[string]any{"name": r.Name, "kind": r.Kind, "result": r.Result, "solver": r.Solver, "time_s": round3(r.TimeS), "smt_bytes": r.SMTBytes, "clause": r.Clause})
+		if r.Retried {
+			obl[len(obl)-1].(map[string]any)["second_pass"] = true
+		}
 		if len(samples) < 6 && r.Clause != "" {
 			samples = append(samples, map[string]any{"obligation": r.Name, "clause": r.Clause, "result": r.Result, "solver": r.Solver})
 		}
